@@ -117,6 +117,18 @@ func (d *Downstream) closeWithError(ctx context.Context, cause error) (err error
 		return errors.New("already draining")
 	}
 
+	// the stream is closed from here on (see the deferred cancel), whatever becomes of the close
+	// request, so the closed event is reported on every path
+	defer func() {
+		d.eventDispatcher.addHandler(func() {
+			d.Config.ClosedEventHandler.OnDownstreamClosed(&DownstreamClosedEvent{
+				Config: d.Config,
+				State:  *d.State(),
+				Err:    cause,
+			})
+		})
+	}()
+
 	if beforeStatus != streamStatusResuming {
 		select {
 		case <-d.ctx.Done():
@@ -141,14 +153,6 @@ func (d *Downstream) closeWithError(ctx context.Context, cause error) (err error
 			ReceivedMessage: resp,
 		}
 	}
-
-	defer d.eventDispatcher.addHandler(func() {
-		d.Config.ClosedEventHandler.OnDownstreamClosed(&DownstreamClosedEvent{
-			Config: d.Config,
-			State:  *d.State(),
-			Err:    cause,
-		})
-	})
 
 	return nil
 }
